@@ -393,7 +393,11 @@ impl Gen {
         let mut p = self.rng.below(npfx as u64) as usize;
         if !self.v6 && p % 2 == 1 { p -= 1; }
         let m = *self.rng.pick(muis);
-        if self.rng.chance(7, 10) { self.next_attr += 1; Pl::Ann(p, m, self.next_attr) } else { Pl::Wd(p, m) }
+        if self.rng.chance(7, 10) {
+            // mostly fresh attribute ids; sometimes an old one again (re-announcement of the same route)
+            let a = if self.next_attr > 100 && self.rng.chance(1, 4) { self.next_attr - self.rng.below(3.min((self.next_attr - 100) as u64)) as u32 } else { self.next_attr += 1; self.next_attr };
+            Pl::Ann(p, m, a)
+        } else { Pl::Wd(p, m) }
     }
     fn op(&mut self, muis: &[u32], npfx: usize, session_wd: bool) -> Op {
         let k = self.rng.below(100);
@@ -512,7 +516,10 @@ fn main() {
     }
 
     // 0. the starvation witness decides which variant this tree is.
-    let stalled = hammer_case(&mut rec, &mut pool, 2, 20000, 6000);
+    //    (2 x 5000: on the code as written a collision within the first few hundred calls is
+    //    practically certain - 10/10 runs already at 2 x 1000; a repaired tree needs < 1 s.
+    //    Every successful CAS leaks the replaced bitmap in rotonda-store, hence not larger.)
+    let stalled = hammer_case(&mut rec, &mut pool, 2, 5000, 6000);
     rec.variant("cas", if stalled { "as-written" } else { "repaired" });
 
     let v6 = v6_inserts_work();
@@ -520,7 +527,7 @@ fn main() {
     let mut g = Gen { rng: Rng::new(args.seed), next_attr: 100, v6 };
 
     // 1. sequential
-    let nseq = if args.thorough { 6000 } else { 600 };
+    let nseq = if args.thorough { 20000 } else { 1000 };
     for _ in 0..nseq {
         let n = g.rng.range(1, 14);
         let muis = [1u32, 2, 3];
@@ -532,7 +539,7 @@ fn main() {
     // 2. concurrent. On the code as written only one writer per case issues session-wide
     //    withdrawals in the bulk of the cases (such a case cannot stall); a smaller share
     //    lets every writer do so (those may stall: re-run, see conc_case).
-    let nconc = if args.thorough { 4000 } else { 260 };
+    let nconc = if args.thorough { 5000 } else { 500 };
     for k in 0..nconc {
         let t = *g.rng.pick(&[2usize, 4, 8]);
         let racy = if k % 5 == 4 { t } else { g.rng.below(2) as usize };
@@ -542,7 +549,7 @@ fn main() {
 
     // 3. more hammering (thorough): other thread counts
     if args.thorough {
-        for t in [4usize, 8] { hammer_case(&mut rec, &mut pool, t, 5000, 6000); }
+        for t in [4usize, 8] { hammer_case(&mut rec, &mut pool, t, 2000, 8000); }
     }
     rec.extra.insert("child_processes_spawned".into(), serde_json::json!(pool.spawned));
     if let Some(c) = pool.child.take() { c.kill(); }
